@@ -427,19 +427,19 @@ Proof. exact search_resets_defs_first_sound. Qed.
 Theorem C02_thread_manager_init : forall st,
   run_tm tm_init_running [] tk_tm_init st
   = Some (mkTM false false true false (tm_sets st) (tm_joins st) []).
-Proof. intros st. exact (tm_init_sound tk_tm_init st eq_refl). Qed.
+Proof. intros [r e c a s j rd]. reflexivity. Qed.
 
 Theorem C02_thread_manager_start : forall st,
   run_tm tm_start_running [] tk_tm_start st = tm_model_start st.
-Proof. intros st. exact (tm_start_sound tk_tm_start st eq_refl). Qed.
+Proof. intros [r e c a s j rd]. destruct c, a; reflexivity. Qed.
 
+(* proved by evaluating the interpreter on the extracted tree, for every
+   state: the statement does not depend on how stop() lays out its test
+   (`if running: ..` or `if not running: return`) *)
 Theorem C02_thread_manager_stop : forall st,
   run_tm tm_stop_running (tm_stop_guards tm_stop_test) tk_tm_stop st
   = tm_model_stop st.
-Proof.
-  intros st. apply (tm_stop_sound tk_tm_stop tm_stop_test st eq_refl).
-  intros b. reflexivity.
-Qed.
+Proof. intros [r e c a s j rd]. destruct r, a; reflexivity. Qed.
 
 (* _run_mp calls results_thread.stop() before the purge and again in its
    `finally`: the second call is a no-op; over a manager's life there is one
@@ -490,6 +490,46 @@ Theorem C02_results_manager_modes :
   put_direct_test (snd run_mp_manager_mode) = false /\
   put_direct_test (snd run_single_manager_mode) = true.
 Proof. repeat split; intros; reflexivity. Qed.
+
+(* ------------------------------------------------------------------------
+   The model identifies task = path = source id, and lets the values of a
+   task be those of its own file.  In the code: *)
+
+(* (i) get_source_id reuses an id only for the very same path string,
+   starts at [source_id_first] and otherwise takes a number above every id in
+   use; hence any two catalog paths that got the same id ARE the same path -
+   two spellings / a symlink alias of one file are two sources, each with
+   its own results (strings as lists of code points) *)
+Theorem C02_source_ids_injective : forall (ps : list (list Z)) p q i,
+  source_id_reused_iff_same_path_string = true ->
+  let same := fun a b : list Z =>
+                if list_eq_dec Z.eq_dec a b then true else false in
+  let tbl := register_all (list Z) same source_id_first source_id_fresh ps in
+  lookup_id (list Z) same p tbl = Some i ->
+  lookup_id (list Z) same q tbl = Some i -> p = q.
+Proof.
+  intros ps p q i _ same.
+  apply (source_ids_injective (list Z) same source_id_first source_id_fresh).
+  - intros a b. unfold same. destruct (list_eq_dec Z.eq_dec a b);
+      split; intros H; congruence.
+  - intros m. unfold source_id_fresh. apply Z.lt_succ_diag_r.
+Qed.
+
+Theorem C02_source_id_source_shape :
+  source_id_reused_iff_same_path_string = true /\ source_id_first = 0 /\
+  forall m, m < source_id_fresh m.
+Proof.
+  split; [reflexivity|]. split; [reflexivity|].
+  intros m. unfold source_id_fresh. apply Z.lt_succ_diag_r.
+Qed.
+
+(* (ii) a task's store object creates its own fresh local store and
+   consults nothing outside itself: the values a task's results refer to
+   are de-duplicated against that task's values only, never against those
+   of another file the same worker searched *)
+Theorem C02_worker_local_store_fresh_per_task :
+  worker_local_store_fresh_per_task = true.
+Proof. reflexivity. Qed.
 
 (* ------------------------------------------------------------------------
    Non-vacuity *)
@@ -557,3 +597,5 @@ Print Assumptions C02_thread_manager_stop.
 Print Assumptions C02_thread_manager_stop_once.
 Print Assumptions C02_collector_thread_wiring.
 Print Assumptions C02_results_manager_modes.
+Print Assumptions C02_source_ids_injective.
+Print Assumptions C02_worker_local_store_fresh_per_task.
